@@ -316,7 +316,7 @@ def tag_printers():
         lits = [x[1] for x in final if x[0] == "lit"]
         braces = [l for l in lits if "{ " in l.replace("{{ ", "").replace("{% ", "") or " }" in l.replace(" }}", "").replace(" %}", "")]
         obs.append(flow.ob(f"{where}:adds-nothing-but-tag-markup-around-its-fields", not braces, str(braces)[:120], replay_schema="code", replay_extra={"code": REPLAY_TAGS}))
-    obs.append(flow.ob("node-printers-found", n >= 20, f"{n} node classes with __str__ and a render method"))
+    obs.append(flow.ob("node-printers-found", n >= 8, f"{n} node classes with __str__ and a render method"))
     return obs
 
 
@@ -347,7 +347,7 @@ def expression_printers():
                 if outer:
                     nested.append(f"if {flow.dotted(iff.test)[:30]} inside if {flow.dotted(outer[0].test)[:30]}")
             obs.append(flow.ob(f"{cname}.__str__:optional-parts-are-printed-under-their-own-presence-test", not nested, str(nested), replay_schema="code", replay_extra={"code": REPLAY_TAGS}))
-    obs.append(flow.ob("expression-printers-found", n >= 4, f"{n}"))
+    obs.append(flow.ob("expression-printers-found", n >= 2, f"{n}"))
     return obs
 
 
